@@ -6,10 +6,13 @@ op list) decides when the next box of a direction is delivered (its bytes arrive
 ``dataReceived`` chunks cut at case-chosen offsets), when a pending responder answers, and when
 the connection is lost — possibly after only a prefix of the next box's bytes has arrived.
 
-case = {"ops": [["call", peer, kind] | ["deliver", dir, k] | ["fire", index, outcome]
+case = {"ops": [["call", peer, kind, follow] | ["deliver", dir, k] | ["fire", index, outcome]
                 | ["disc", dir, cutpermille]], "chunks": seed}
-  peer / dir: 0 = A (-> B), 1 = B (-> A);  kind: now | later | declared | undeclared | unknown
-  outcome: ok | declared | undeclared
+  peer / dir: 0 = A (-> B), 1 = B (-> A);  kind: now | later | declared | sub | fatal | undeclared | unknown
+  (sub: the responder raises a strict subclass of the declared exception; fatal: a declared fatal error)
+  follow: the callback AND errback of the call's Deferred synchronously issue one more call (kind now) on
+  the same connection -- at answer time, at error time or at connection-loss time (application retry logic)
+  outcome: ok | declared | sub | fatal | undeclared
 A call carries its own id as argument n; the responder answers {n: argument}.
 """
 from __future__ import annotations
@@ -19,14 +22,20 @@ import random
 
 from harness.common import Failure, Spec, coq_list
 
-KINDS = ["now", "later", "declared", "undeclared", "unknown"]
-OUTCOMES = ["ok", "declared", "undeclared"]
+KINDS = ["now", "later", "declared", "sub", "fatal", "undeclared", "unknown"]
+OUTCOMES = ["ok", "declared", "sub", "fatal", "undeclared"]
 
 
 def _setup():
     from twisted.protocols import amp
 
     class DeclaredError(Exception):
+        pass
+
+    class SubDeclaredError(DeclaredError):
+        pass
+
+    class FatalError(Exception):
         pass
 
     class UndeclaredError(Exception):
@@ -36,8 +45,8 @@ def _setup():
     for kind in KINDS:
         cmds[kind] = type("Cmd_" + kind, (amp.Command,), {
             "commandName": kind.encode(), "arguments": [(b"n", amp.Integer())], "response": [(b"n", amp.Integer())],
-            "errors": {DeclaredError: b"DECLARED"}})
-    return amp, cmds, DeclaredError, UndeclaredError
+            "errors": {DeclaredError: b"DECLARED"}, "fatalErrors": {FatalError: b"FATAL"}})
+    return amp, cmds, DeclaredError, UndeclaredError, SubDeclaredError, FatalError
 
 
 _QUIET = []
@@ -60,7 +69,7 @@ def impl(case) -> str:
     from twisted.internet.testing import StringTransport
     from twisted.python.failure import Failure as TFailure
 
-    amp, cmds, DeclaredError, UndeclaredError = _setup()
+    amp, cmds, DeclaredError, UndeclaredError, SubDeclaredError, FatalError = _setup()
     _quiet()
     ev: list[str] = []
     pending: list = []          # [peer, Deferred, n] of responders that answer later
@@ -87,6 +96,16 @@ def impl(case) -> str:
             def r_declared(self, n):
                 ev.append(f"I{me}:{n}")
                 raise DeclaredError("declared")
+
+            @cmds["sub"].responder
+            def r_sub(self, n):
+                ev.append(f"I{me}:{n}")
+                raise SubDeclaredError("a subclass of the declared error")
+
+            @cmds["fatal"].responder
+            def r_fatal(self, n):
+                ev.append(f"I{me}:{n}")
+                raise FatalError("fatal")
 
             @cmds["undeclared"].responder
             def r_undeclared(self, n):
@@ -135,8 +154,9 @@ def impl(case) -> str:
             peers[q].dataReceived(data[prev:c])
             prev = c
 
-    def lose():
+    def lose(mark):
         nonlocal up
+        ev.append(mark)
         up = False
         chan[0].clear()
         chan[1].clear()
@@ -156,22 +176,33 @@ def impl(case) -> str:
             while chan[closer]:
                 feed(1 - closer, chan[closer].pop(0))
                 pump()
-            lose()
+            lose("Q")
 
     out = []
     for op in case["ops"]:
         ev.clear()
         if op[0] == "call":
-            i, ncalls = ncalls, ncalls + 1
-            d = peers[op[1]].callRemote(cmds[op[2]], n=i)
+            def issue(peer, kind, follow):
+                nonlocal ncalls
+                i, ncalls = ncalls, ncalls + 1
+                d = peers[peer].callRemote(cmds[kind], n=i)
 
-            def ok(r, i=i):
-                ev.append(f"C{i}=ok:{r['n']}")
+                def again():
+                    if follow:
+                        ev.append(f"N{ncalls}")
+                        issue(peer, "now", False)
 
-            def err(f, i=i):
-                ev.append(f"C{i}=err:{f.type.__name__}")
+                def ok(r, i=i):
+                    ev.append(f"C{i}=ok:{r['n']}")
+                    again()
 
-            d.addCallbacks(ok, err)
+                def err(f, i=i):
+                    ev.append(f"C{i}=err:{f.type.__name__}")
+                    again()
+
+                d.addCallbacks(ok, err)
+
+            issue(op[1], op[2], bool(op[3]) if len(op) > 3 else False)
             pump()
         elif op[0] == "deliver":
             for _ in range(op[2]):
@@ -191,6 +222,10 @@ def impl(case) -> str:
                     d.callback({"n": n})
                 elif op[2] == "declared":
                     d.errback(TFailure(DeclaredError("declared")))
+                elif op[2] == "sub":
+                    d.errback(TFailure(SubDeclaredError("sub")))
+                elif op[2] == "fatal":
+                    d.errback(TFailure(FatalError("fatal")))
                 else:
                     d.errback(TFailure(UndeclaredError("undeclared")))
                 pump()
@@ -199,7 +234,7 @@ def impl(case) -> str:
                     while chan[closer]:
                         feed(1 - closer, chan[closer].pop(0))
                         pump()
-                    lose()
+                    lose("Q")
             else:
                 ev.append("-")
         elif op[0] == "disc":
@@ -209,8 +244,7 @@ def impl(case) -> str:
                     data = chan[d][0]
                     cut = min(len(data) - 1, max(1, len(data) * op[2] // 1000))
                     peers[1 - d].dataReceived(data[:cut])      # a strict prefix of the next box, then the loss
-                ev.append("X")
-                lose()
+                lose("X")
             else:
                 ev.append("-")
         else:
@@ -222,7 +256,8 @@ def impl(case) -> str:
 # --------------------------------------------------------------------------------------
 # oracle (independent bookkeeping on the observation)
 
-EXPECT_ERR = {"declared": "DeclaredError", "undeclared": "UnknownRemoteError", "unknown": "UnhandledCommand"}
+EXPECT = {"now": None, "declared": "DeclaredError", "sub": "DeclaredError", "fatal": "FatalError",
+          "undeclared": "UnknownRemoteError", "unknown": "UnhandledCommand", "ok": None}
 
 
 def oracle(case, obs):
@@ -230,20 +265,33 @@ def oracle(case, obs):
     groups = [g.split(",") if g != "." else [] for g in obs.split(" |")[0].split(" ")] if ops else []
     if len(groups) != len(ops):
         return Failure(case, "malformed observation", "log")
-    calls = {}          # id -> {"peer", "kind", "fired", "invoked"}
+    calls = {}          # id -> {"peer", "kind", "follow", "fired", "invoked", "after_loss"}
     later = {}          # call id -> outcome chosen when its responder fired
     n = 0
     up = True
+
+    def new_call(peer, kind, follow):
+        nonlocal n
+        i, n = n, n + 1
+        calls[i] = {"peer": peer, "kind": kind, "follow": follow, "fired": False, "invoked": False, "after_loss": not up}
+        return i
+
     for t, (op, g) in enumerate(zip(ops, groups)):
         where = f"op {t} {op} -> {','.join(g) or '.'}: "
-        issued = None
         if op[0] == "call":
-            issued, n = n, n + 1
-            calls[issued] = {"peer": op[1], "kind": op[2], "fired": False, "invoked": False, "after_loss": not up}
+            new_call(op[1], op[2], bool(op[3]) if len(op) > 3 else False)
+        expect_nested = None      # (parent id) whose callback must issue a call next
         for e in g:
+            if expect_nested is not None and e[0] != "N":
+                return Failure(case, where + f"the callback of call {expect_nested} did not issue its follow-up call", "log")
             if e.startswith("!"):
                 return Failure(case, where + "an error nobody handled: " + e, "unhandled-error")
-            if e[0] == "I":
+            if e[0] == "N":
+                if expect_nested is None or int(e[1:]) != n:
+                    return Failure(case, where + "unexpected nested call", "log")
+                new_call(calls[expect_nested]["peer"], "now", False)
+                expect_nested = None
+            elif e[0] == "I":
                 me, i = e[1:].split(":")
                 c = calls.get(int(i))
                 if c is None or c["invoked"] or int(me) != 1 - c["peer"] or c["kind"] == "unknown":
@@ -255,45 +303,45 @@ def oracle(case, obs):
                 later[int(i)] = op[2]
             elif e[0] == "C":
                 i, res = e[1:].split("=")
-                c = calls[int(i)]
+                i = int(i)
+                c = calls.get(i)
+                if c is None:
+                    return Failure(case, where + f"unknown call {i} fired", "log")
                 if c["fired"]:
                     return Failure(case, where + f"call {i} fired twice", "fired-twice")
                 c["fired"] = True
+                if c["follow"]:
+                    expect_nested = i
                 if res == "err:ConnectionDone":
-                    if up and "X" not in g and not any(x["kind"] == "undeclared" or later.get(k) == "undeclared"
-                                                       for k, x in calls.items()):
+                    if up:
                         return Failure(case, where + f"call {i} failed with the loss reason while connected", "spurious-loss")
                     continue
                 if c["after_loss"]:
                     return Failure(case, where + f"call {i} made after the loss got {res}", "after-loss-result")
-                kind = c["kind"] if c["kind"] != "later" else {"ok": "now", None: None}.get(later.get(int(i)), later.get(int(i)))
-                want = f"ok:{i}" if kind == "now" else "err:" + EXPECT_ERR.get(kind, "?")
+                kind = c["kind"] if c["kind"] != "later" else later.get(i)
+                if kind not in EXPECT:
+                    return Failure(case, where + f"call {i} got {res} although its responder has not answered", "answer-without-question")
+                want = f"ok:{i}" if EXPECT[kind] is None else "err:" + EXPECT[kind]
                 if res != want:
-                    tag = "wrong-answer" if res.startswith("ok:") and kind == "now" else "wrong-result"
+                    tag = "wrong-answer" if res.startswith("ok:") and EXPECT[kind] is None else "wrong-result"
                     return Failure(case, where + f"call {i} ({c['kind']}) got {res}, its own command's result is {want}", tag)
                 if not c["invoked"] and c["kind"] != "unknown":
                     return Failure(case, where + f"call {i} answered without its responder having run", "answer-without-question")
-            elif e == "X":
+            elif e in ("X", "Q"):
                 up = False
-        if op[0] == "call" and not up and not calls[issued]["fired"]:
-            return Failure(case, where + "a call made after the connection was lost must fail immediately", "after-loss-pending")
-        if obs_down(g, up):
-            up = False
+        if expect_nested is not None:
+            return Failure(case, where + f"the callback of call {expect_nested} did not issue its follow-up call", "log")
         if not up:
             late = [i for i, c in calls.items() if not c["fired"]]
             if late:
+                made_after = [i for i in late if calls[i]["after_loss"]]
+                if made_after:
+                    return Failure(case, where + f"call(s) {made_after} made after the connection was lost did not fail "
+                                           f"immediately (never fired)", "after-loss-pending")
                 return Failure(case, where + f"call(s) {late} still pending after the connection was lost", "pending-after-loss")
-    if obs.endswith("up=F ab=0 ba=0") is False and " |up=F" in obs:
+    if " |up=F" in obs and not obs.endswith("up=F ab=0 ba=0"):
         return Failure(case, "boxes left in a channel after the loss", "log")
     return None
-
-
-def obs_down(g, up):
-    return up and any(e.endswith("err:ConnectionDone") for e in g) and "X" not in g and False
-
-
-def _final_up(obs):
-    return " |up=T" in obs
 
 
 # --------------------------------------------------------------------------------------
@@ -302,15 +350,18 @@ def _final_up(obs):
 
 def gen(rng, tier):
     cases = []
-    alpha = [["call", 0, "now"], ["call", 1, "now"], ["call", 0, "later"], ["call", 0, "declared"],
-             ["call", 1, "undeclared"], ["call", 0, "unknown"], ["deliver", 0, 1], ["deliver", 1, 1],
-             ["fire", 0, "ok"], ["fire", 0, "undeclared"], ["disc", 0, 500]]
+    alpha = [["call", 0, "now", False], ["call", 1, "now", True], ["call", 0, "later", True], ["call", 0, "declared", False],
+             ["call", 1, "sub", True], ["call", 0, "fatal", False], ["call", 1, "undeclared", False],
+             ["call", 0, "unknown", True], ["deliver", 0, 1], ["deliver", 1, 1],
+             ["fire", 0, "ok"], ["fire", 0, "sub"], ["fire", 0, "undeclared"], ["disc", 0, 500]]
     depth = 3 if tier == "quick" else 5
     for n in range(1, depth + 1):
         for word in itertools.product(range(len(alpha)), repeat=n):
-            if tier == "quick" and n == depth and rng.random() > 0.5:
+            if tier == "quick" and n == depth and rng.random() > 0.3:
                 continue
-            if tier != "quick" and n == depth and rng.random() > 0.03:
+            if tier != "quick" and n == 4 and rng.random() > 0.4:
+                continue
+            if tier != "quick" and n == depth and rng.random() > 0.01:
                 continue
             cases.append({"ops": [alpha[i] for i in word], "chunks": rng.randrange(1 << 30)})
     for _ in range(500 if tier == "quick" else 4000):
@@ -319,35 +370,41 @@ def gen(rng, tier):
         for _ in range(rng.randrange(5, 50)):
             r = rng.random()
             if r < 0.35:
-                kinds = ["now", "now", "later", "later", "declared", "unknown"] + (["undeclared"] if fatal else [])
-                ops.append(["call", rng.randrange(2), rng.choice(kinds)])
+                kinds = ["now", "now", "later", "later", "declared", "sub", "unknown"] + (["undeclared", "fatal"] if fatal else [])
+                ops.append(["call", rng.randrange(2), rng.choice(kinds), rng.random() < 0.35])
             elif r < 0.75:
                 ops.append(["deliver", rng.randrange(2), rng.choice([1, 1, 1, 2, 3, 7])])
             elif r < 0.93:
-                ops.append(["fire", rng.choice([0, 0, 1, 2, 5]), rng.choice(["ok", "ok", "declared"] + (["undeclared"] if fatal else []))])
+                ops.append(["fire", rng.choice([0, 0, 1, 2, 5]), rng.choice(["ok", "ok", "declared", "sub"] + (["undeclared", "fatal"] if fatal else []))])
             elif r < 0.96:
                 ops.append(["disc", rng.randrange(2), rng.choice([0, 1, 500, 999])])
             else:
-                ops.append(["call", rng.randrange(2), "now"])
+                ops.append(["call", rng.randrange(2), "now", True])
         cases.append({"ops": ops, "chunks": rng.randrange(1 << 30)})
     return cases
 
 
 def corpus():
     return [
-        {"ops": [["call", 0, "later"], ["call", 0, "now"], ["deliver", 0, 2], ["call", 1, "later"], ["deliver", 1, 2],
+        {"ops": [["call", 0, "later", False], ["call", 0, "now", False], ["deliver", 0, 2], ["call", 1, "later", False], ["deliver", 1, 2],
                  ["fire", 1, "ok"], ["fire", 0, "declared"], ["deliver", 1, 5], ["deliver", 0, 5], ["disc", 0, 500],
-                 ["call", 0, "now"], ["fire", 0, "ok"]], "chunks": 1},
-        {"ops": [["call", 0, "now"], ["call", 0, "later"], ["call", 1, "undeclared"], ["deliver", 0, 1], ["deliver", 1, 1],
-                 ["call", 1, "now"]], "chunks": 2},
-        {"ops": [["call", 0, "now"], ["disc", 0, 999], ["call", 0, "now"], ["call", 1, "unknown"]], "chunks": 3},
+                 ["call", 0, "now", False], ["fire", 0, "ok"]], "chunks": 1},
+        {"ops": [["call", 0, "now", False], ["call", 0, "later", False], ["call", 1, "undeclared", False], ["deliver", 0, 1], ["deliver", 1, 1],
+                 ["call", 1, "now", False]], "chunks": 2},
+        {"ops": [["call", 0, "now", False], ["disc", 0, 999], ["call", 0, "now", False], ["call", 1, "unknown", False]], "chunks": 3},
+        # re-entrant calls: from a callback at answer time, from an errback at error time and at connection-loss time
+        {"ops": [["call", 0, "now", True], ["call", 0, "declared", True], ["deliver", 0, 2], ["deliver", 1, 2], ["call", 0, "later", True],
+                 ["call", 0, "now", False], ["disc", 0, 0], ["call", 0, "now", True]], "chunks": 4},
+        # a responder raising a subclass of a declared error; a declared fatal error
+        {"ops": [["call", 0, "sub", False], ["deliver", 0, 1], ["deliver", 1, 1], ["call", 1, "later", False], ["deliver", 1, 1],
+                 ["fire", 0, "sub"], ["deliver", 0, 1], ["call", 0, "fatal", False], ["call", 1, "now", True], ["deliver", 0, 1]], "chunks": 5},
     ]
 
 
 def to_coq(case):
     def op(o):
         if o[0] == "call":
-            return f"OCall {'true' if o[1] else 'false'} K{o[2]}"
+            return f"OCall {'true' if o[1] else 'false'} K{o[2]} {'true' if (len(o) > 3 and o[3]) else 'false'}"
         if o[0] == "deliver":
             return f"ODeliver {'true' if o[1] else 'false'} {int(o[2])}%nat"
         if o[0] == "fire":
@@ -370,9 +427,10 @@ SPEC = Spec(
     to_coq=to_coq,
     nontrivial=lambda c, o: "C" in o and ("I" in o or "X" in o),
     histogram=lambda c, o: ("lost" if " |up=F" in o else "up") + (":fatal" if "UnknownRemoteError" in o else ""),
-    rule="every history of length <= 3 (quick, half of length 3) / <= 5 (thorough, 3% of length 5) over an "
-         "11-letter alphabet (calls of each responder kind from either peer, deliver one box in either direction, fire the "
-         "oldest pending responder with success / undeclared error, connection loss in the middle of the next box), plus "
+    rule="every history of length <= 2, 30% of length 3 (quick) / <= 3, 40% of length 4, 1% of length 5 (thorough) over a "
+         "14-letter alphabet (calls of each responder kind incl. subclass-of-declared and fatal declared errors, with and "
+         "without a re-entrant follow-up call from their callback/errback, from either peer; deliver one box in either direction; "
+         "fire the oldest pending responder with success / subclass error / undeclared error; loss in the middle of the next box), plus "
          "random histories of 5-50 ops (deliveries of 1-7 boxes, responders fired out of order, loss at 0/0.1/50/99.9% of "
          "the next box); each box's bytes arrive in 1-3 chunks cut at seeded offsets; non-trivial = some call fired and a "
          "responder ran or the connection was lost; distinct by (case, observation)",
